@@ -20,6 +20,8 @@ theorem addPe_eq (b name payload : Bytes) (v : ValidPe b name payload) :
       b2.length = b.length + pBump b ∧
       (∀ j, j < pEnd b → (∀ i, i < pNum b → ¬ (pHdrs b + i * 40 + 20 ≤ j ∧ j < pHdrs b + i * 40 + 24)) →
           b2[j]? = (patch b (pFh b + 2) (leBytes 2 (pNum b + 1)))[j]?) ∧
+      (∀ j, pEnd b ≤ j → b2[j + pBump b]? = b[j]?) ∧
+      (∀ i, i < pNum b → leVal (slice b2 (pHdrs b + i * 40 + 20) 4) = leVal (slice b (pHdrs b + i * 40 + 20) 4) + pBump b) ∧
       addPe b name payload = .ok
         (patch (patch (patch
           ((patch b2 (pEnd b) (peHdr name (alignUp (pPrevVa b + pPrevVs b) (pSecAlign b)) (alignUp payload.length (pFileAlign b)))) ++
@@ -50,6 +52,8 @@ theorem addPe_eq (b name payload : Bytes) (v : ValidPe b name payload) :
   -- the block that makes room
   have hblock : ∃ b2, b2.length = b.length + pBump b ∧
       (∀ j, j < pEnd b → (∀ i, i < pNum b → ¬ (pHdrs b + i * 40 + 20 ≤ j ∧ j < pHdrs b + i * 40 + 24)) → b2[j]? = b1[j]?) ∧
+      (∀ j, pEnd b ≤ j → b2[j + pBump b]? = b1[j]?) ∧
+      (∀ i, i < pNum b → leVal (slice b2 (pHdrs b + i * 40 + 20) 4) = leVal (slice b (pHdrs b + i * 40 + 20) 4) + pBump b) ∧
       (if pGap b < 40 then (do
           let need ← sub 40 (pGap b)
           let bump ← align U64 need (pFileAlign b)
@@ -66,7 +70,7 @@ theorem addPe_eq (b name payload : Bytes) (v : ValidPe b name payload) :
         intro j hj
         simp only [b']
         rw [List.append_assoc, List.getElem?_append_left (by simp; omega), List.getElem?_take, if_pos hj]
-      obtain ⟨t', he, hlt, hfr, -⟩ := bumpPointers_spec (pHdrs b) (pBump b) (pNum b) b' 0 (by rw [hl']; omega) (by
+      obtain ⟨t', he, hlt, hfr, hvalp⟩ := bumpPointers_spec (pHdrs b) (pBump b) (pNum b) b' 0 (by rw [hl']; omega) (by
         intro idx _ h2
         have h2' : idx < pNum b := by omega
         refine ⟨by rw [hl']; omega, ?_⟩
@@ -77,18 +81,37 @@ theorem addPe_eq (b name payload : Bytes) (v : ValidPe b name payload) :
           exact hlow _ (by omega)
         rw [this]
         exact hptr idx h2')
-      refine ⟨t', by rw [hlt, hl'], ?_, ?_⟩
+      have hsl' : ∀ idx, idx < pNum b → slice b' (pHdrs b + idx * 40 + 20) 4 = slice b (pHdrs b + idx * 40 + 20) 4 := by
+        intro idx h2'
+        rw [← hs1 _ _ (by right; omega)]
+        apply slice_congr
+        intro i hi
+        exact hlow _ (by omega)
+      refine ⟨t', by rw [hlt, hl'], ?_, ?_, ?_, ?_⟩
       · intro j hj hw
         rw [hfr j (fun idx _ h2 => hw idx (by omega)), hlow j hj]
+      · intro j hj
+        rw [hfr _ (fun idx _ h2 => by omega)]
+        simp only [b']
+        rw [List.getElem?_append_right (by simp [zeros]; omega), List.getElem?_drop]
+        congr 1
+        simp [zeros]; omega
+      · intro i hi
+        rw [hvalp i (by omega) (by omega), hsl' i hi]
       · rw [if_pos hg]
         simp only [sub, show pGap b ≤ 40 by omega, ↓reduceIte, bind_ok]
         rw [align_eq U64 _ _ (by omega) hfa (by omega)]
         simp only [bind_ok, ← hbump, spliceAt, show pEnd b ≤ b1.length by omega, ↓reduceIte, Nat.mod_eq_of_lt (show pBump b < U32 by omega)]
         exact he
     · have hbump : pBump b = 0 := by unfold pBump; rw [if_neg hg]
-      exact ⟨b1, by rw [hbump, hl1]; rfl, fun _ _ _ => rfl, by rw [if_neg hg]⟩
-  obtain ⟨b2, hl2, hb2f, hblk⟩ := hblock
-  refine ⟨b2, alignUp (alignUp (pPrevVa b + pPrevVs b) (pSecAlign b) + 1) (pSecAlign b), alignUp (pEnd b + 40) (pFileAlign b), hl2, hb2f, ?_⟩
+      refine ⟨b1, by rw [hbump, hl1]; rfl, fun _ _ _ => rfl, ?_, ?_, by rw [if_neg hg]⟩
+      · intro j _; rw [hbump]; rfl
+      · intro i hi
+        rw [hbump, hs1 _ _ (by right; omega)]; rfl
+  obtain ⟨b2, hl2, hb2f, hb2hi, hb2ptr, hblk⟩ := hblock
+  refine ⟨b2, alignUp (alignUp (pPrevVa b + pPrevVs b) (pSecAlign b) + 1) (pSecAlign b), alignUp (pEnd b + 40) (pFileAlign b), hl2, hb2f, ?_, hb2ptr, ?_⟩
+  · intro j hj
+    rw [hb2hi j hj, ← hb1, getElem?_patch _ _ _ _ hw1, hb2, if_neg (by omega), if_neg (by omega)]
   -- reads that see the input's values
   have hL1 : pEnd b ≤ b1.length := by omega
   have e_os : leVal (slice b1 (pFh b + 16) 2) = pOptSize b := by rw [hs1 _ _ (by right; omega)]; rfl
